@@ -1,7 +1,112 @@
-import GoUtils.Model.Fs
+/-
+C06 — the filesystem API follows its documented semantics on every backend.
+
+`Model.Fs` is the REFERENCE MODEL the property speaks of (mkdir -p, touch, write, read, ls, rm -rf,
+cp -r with the library's destination-shape rules, mv) — the specification side. The implementation
+(*VFS over MemMapFs and OsFs) is tied to it call by call by the harness `h fsprog`, which feeds the
+same programs to `Fs.step` through the driver. What Lean proves here is that the reference model
+itself has the properties of the second sentence for EVERY tree, path and program — so that "the
+implementation behaves as the model" carries them over — plus the facts, regenerated from the
+source on every run, that the refusal / no-op branches of the model are present in the code.
+-/
+import GoUtils.Proofs.Fs
+import GoUtils.Generated.Fs
 import GoUtils.Verdict
 namespace GoUtils.Props.C06
 open GoUtils GoUtils.Fs
-/-- placeholder obligation while the refinement theorems are being written -/
-theorem C06_root_is_dir (t : Tree) : isDir t [] = true := by simp [isDir, lookup]
+
+/-- the guards of Copy / Move the model's refusal and no-op branches stand for are in the source,
+    each before the first statement that touches the destination (regenerated on every run) -/
+theorem C06_guards_in_source :
+    Generated.Fs.ok = true ∧ Generated.Fs.copySelfNoop = true ∧ Generated.Fs.copyIntoItselfRefused = true ∧
+    Generated.Fs.copyFileOntoItselfNoop = true ∧ Generated.Fs.copyDstRule = true ∧
+    Generated.Fs.moveSelfNoop = true ∧ Generated.Fs.moveBelowItselfRefused = true ∧
+    Generated.Fs.isSubPathLexical = true := by decide
+
+/-- "never alters or removes anything other than its destination", one call: whatever the arguments
+    (kind conflicts included), outside the targets of the call (`Op.targets`: the path written,
+    created, removed or cleaned; the destination of a copy; source and destination of a move) every
+    path keeps the node it had — or had none and is now a directory on the way to a target. -/
+theorem C06_call_frame (t : Tree) (op : Op) (r : Res) (t' : Tree) (h : step t op = some (r, t')) :
+    ∀ q, (∀ x ∈ op.targets, under x q = false) →
+      lookup t' q = lookup t q ∨
+      (lookup t q = none ∧ lookup t' q = some .dir ∧ ∃ x ∈ op.targets, under q x = true) :=
+  step_frame t op r t' h
+
+/-- the same for every program: a path unrelated to all targets is untouched by the whole program -/
+theorem C06_program_frame (ops : List Op) (t t' : Tree) (h : run t ops = some t') (q : Path)
+    (hq : ∀ op ∈ ops, ∀ x ∈ op.targets, under x q = false ∧ under q x = false) :
+    lookup t' q = lookup t q :=
+  run_frame ops t t' h q hq
+
+/-- "a copy never changes its source": when neither lies inside the other, every path at or below the
+    source is after the copy what it was before (nothing altered, removed or ADDED), for every fuel,
+    tree and result — success or failure. -/
+theorem C06_copy_source_unchanged (fuel : Nat) (t : Tree) (src dest : Path) (sl : Bool) (r : Res) (t' : Tree)
+    (h : copy fuel t src dest sl = some (r, t'))
+    (h1 : under src dest = false) (h2 : under dest src = false) :
+    ∀ q, under src q = true → lookup t' q = lookup t q := by
+  intro q hq
+  have hdq : under dest q = false := by
+    cases hd : under dest q with
+    | false => rfl
+    | true =>
+      rcases under_comparable hq hd with c | c
+      · rw [c] at h1; cases h1
+      · rw [c] at h2; cases h2
+  rcases copy_frame fuel t src dest sl r t' h q hdq with a | ⟨_, _, a3⟩
+  · exact a
+  · rw [under_trans hq a3] at h1; cases h1
+
+/-- overlap, source = destination: nothing happens -/
+theorem C06_copy_onto_itself (fuel : Nat) (t : Tree) (p : Path) :
+    copy (fuel + 1) t p p false = some (.ok, t) := by simp [copy]
+
+/-- overlap, destination inside the source directory: refused, nothing happens -/
+theorem C06_copy_into_itself_refused (fuel : Nat) (t : Tree) (src dest : Path) (sl : Bool)
+    (hd : isDir t src = true) (hu : under src dest = true) (hne : src ≠ dest) :
+    copy (fuel + 1) t src dest sl = some (.err .invalid, t) := by
+  have hex : exists_ t src = true := by unfold isDir at hd; unfold exists_; cases h : lookup t src <;> simp_all
+  simp [copy, hne, hex, hd, hu]
+
+/-- a move below itself is refused, a move onto itself does nothing -/
+theorem C06_move_below_itself_refused (fuel : Nat) (t : Tree) (src dest : Path)
+    (hex : exists_ t src = true) (hu : under src dest = true) (hne : src ≠ dest) :
+    move (fuel + 1) t src dest = some (.err .invalid, t) := by
+  simp [move, hne, hex, hu]
+
+theorem C06_move_onto_itself (fuel : Nat) (t : Tree) (p : Path) : move (fuel + 1) t p p = some (.ok, t) := by
+  simp [move]
+
+/-- mkdir -p: ok exactly when no regular file is in the way, and then the path is a directory;
+    nothing that existed is replaced -/
+theorem C06_mkdir_p (t : Tree) (p : Path) :
+    ((mkdirAll t p).1 = .ok → isDir (mkdirAll t p).2 p = true) ∧
+    (∀ q n, lookup t q = some n → lookup (mkdirAll t p).2 q = some n) :=
+  ⟨mkdirAll_ok_isDir t p, fun q n h => mkdirAll_keeps t p q n h⟩
+
+/-- rm -rf: nothing is left at or below the path, everything else is as before -/
+theorem C06_rm_rf (t : Tree) (p q : Path) (hq : q ≠ []) :
+    (under p q = true → lookup (rm t p).2 q = none) ∧ (under p q = false → lookup (rm t p).2 q = lookup t q) :=
+  ⟨rm_removes t p q hq, fun h => by
+    unfold rm
+    split
+    · rename_i hp; subst hp; rw [under_nil] at h; cases h
+    · exact lookup_removeUnder_outside _ _ _ h⟩
+
+/-- a successful write is what a later lookup finds -/
+theorem C06_write_read (t : Tree) (p : Path) (c : Nat) (h : (writeFile t p c).1 = .ok) :
+    readFile (writeFile t p c).2 p = (if c = 0 then .err .empty else .content c) := by
+  unfold readFile; rw [write_then_lookup t p c h]
+
+/-! non-vacuity: a program with an overlapping copy, a move and a removal on a concrete tree returns,
+    and a bystander below a sibling directory is untouched (the hypotheses of `C06_program_frame`
+    hold for it) -/
+def sampleTree : Tree := [([1], .dir), ([1, 2], .file 3), ([2], .dir), ([2, 9], .file 7)]
+def sampleProg : List Op := [.cp [1] [1, 5] false, .cp [1] [3] true, .mv [3] [4], .rm [1], .mkdir [4, 1, 1]]
+
+example : (run sampleTree sampleProg).isSome = true := by decide
+example : ∀ op ∈ sampleProg, ∀ x ∈ op.targets, under x [2, 9] = false ∧ under [2, 9] x = false := by decide
+example : (run sampleTree sampleProg).map (fun t => lookup t [2, 9]) = some (some (.file 7)) := by decide
+
 end GoUtils.Props.C06
